@@ -5,6 +5,7 @@
 //! final sentinel field `.`. A panic inside the library becomes the single result `PANIC`.
 
 mod util;
+mod c02;
 mod c03;
 mod c04;
 mod c10;
@@ -38,6 +39,9 @@ fn eval(op: &str, args: &[&str]) -> Option<Vec<String>> {
         "pool" => poolop::pool(args),
         "transports" => c18::transports(args),
         "body" => c10::body(args),
+        "hval" | "hvalrt" => c02::hval(args),
+        "hname" => c02::hname(args),
+        "hdrs" => c02::hdrs(args),
         "crlf" => c10::crlf(args),
         "qp" => c10::qp(args),
         "b64" => c10::b64(args),
